@@ -19,6 +19,8 @@ def stage1_jobs(chunk):
     for it in chunk:
         if 'model' in it:
             jobs.append({'cmd': 'compile', 'model': it['model'], 'want': ['model_text', 'lin_text']})
+        elif 'src' in it:
+            jobs.append({'cmd': 'text', 'src': it['src'], 'want': ['model_text', 'lin_text', 'type_check']})
         else:
             jobs.append({'cmd': 'lm', 'lm': it['lm'], 'ops': ['text']})
     return jobs
@@ -82,6 +84,13 @@ def work(chunk):
     o1 = run_driver(stage1_jobs(chunk))
     jobs2, ref = [], []
     for i, (it, o) in enumerate(zip(chunk, o1)):
+        if 'src' in it:
+            # a program of the repository's own corpus: normalise to the shape of a compiled model item
+            mo = o.get('model') or {}
+            if 'ok' not in mo or 'ok' not in (o.get('type_check') or {}):
+                continue   # not a compiled model of a well-typed program (the corpus contains negative tests)
+            it = dict(it, model=mo['ok'])
+            o = {'lin': mo.get('lin', {}), 'model_text': mo.get('model_text')}
         if 'model' in it:
             l = o.get('lin', {})
             if 'ok' not in l:
@@ -102,7 +111,10 @@ def work(chunk):
     results = [{'idx': it['idx'], 'fails': [], 'q': 0, 'unknown': [], 'status': 'ok', 'renderings': 0} for it in chunk]
     for i, it in enumerate(chunk):
         o = o1[i]
-        if 'model' in it and 'ok' not in o.get('lin', {}):
+        if 'src' in it:
+            if 'ok' not in ((o.get('model') or {}).get('lin') or {}) or 'ok' not in (o.get('type_check') or {}):
+                results[i]['status'] = 'not-compiled'
+        elif 'model' in it and 'ok' not in o.get('lin', {}):
             results[i]['status'] = 'not-compiled'
     for (i, kind, L, text, declared), out in zip(ref, o2):
         res = results[i]
@@ -141,6 +153,8 @@ def family(t, sd):
     ls = gen.l_seeded(92, 1500 if t == 'quick' else 20000, named=True, offsets=True, satisfy=True, probe=('coef', 'rhs', 'obj', 'off'))
     ls += gen.l_seeded(93, 1000 if t == 'quick' else 10000, named=True, offsets=True, coefs=[0, 1, -1, 2.5] + big, rhss=[0, 1, -1] + big)
     items += [{'lm': s} for s in ls]
+    import corpus
+    items += [{'src': pr['src']} for pr in corpus.programs()]
     lim = os.environ.get('VERIF_LIMIT')
     if lim:
         items = items[::max(1, len(items) // int(lim))]
